@@ -36,6 +36,7 @@ CONSTANTS
   NodeTeardown,  \* TRUE: relays / exits may tear a circuit down on their own initiative
   MayVanish,     \* TRUE: nodes may disappear (C09: abandoned circuits)
   SweepRelays,   \* TRUE: do_remove also reclaims inactive relay entries (the code); FALSE: negative control
+  E2E,           \* TRUE: two circuits may be linked at a rendezvous point (hidden services)
   Aead,          \* TRUE: a layer only comes off if it authenticates (ChaCha20-Poly1305); FALSE: negative control
   CheckIdent,    \* TRUE: an answer must carry the identifier of the outstanding request (the code); FALSE: negative control
   AutoTimers     \* TRUE: sweeps/pings are driven by sweepAt/pingAt (model checking); FALSE: any time (trace validation)
@@ -45,6 +46,7 @@ F == "F"      \* FORWARD
 B == "B"      \* BACKWARD
 Null == "null" \* the address 0.0.0.0:0
 NoHop == [peer |-> "none", eph |-> 0]
+NoKey == [e1 |-> 0, e2 |-> 0, st |-> "none"]
 Everyone == Node \cup {Adv}
 
 VARIABLES
@@ -79,7 +81,7 @@ Init ==
   /\ pend = {} /\ net = {}
   /\ ctr = [msg |-> 0, cid |-> 0, ident |-> 0, eph |-> 0, data |-> 0, adv |-> 0]
   /\ now = 0 /\ sweepAt = [n \in Node |-> SweepEvery] /\ pingAt = [n \in Node |-> PingEvery]
-  /\ hist = [sent |-> EmptyF, exitLog |-> {}, origLog |-> {}, fwdEarly |-> EmptyF, joined |-> {}]
+  /\ hist = [sent |-> EmptyF, exitLog |-> {}, origLog |-> {}, fwdEarly |-> EmptyF, joined |-> {}, links |-> {}]
   /\ budget = [loss |-> 0, dup |-> 0, adv |-> 0]
   /\ wire = {} /\ stepc = 0 /\ gone = {}
 
@@ -112,12 +114,14 @@ StampIds(ms) == [i \in 1..Len(ms) |-> [id |-> 0] @@ ms[i]]
 CState(c) == IF c.closing THEN "CLOSING" ELSE IF Len(c.hops) < c.goal THEN "EXTENDING" ELSE "READY"
 FirstHopAddr(c) == IF c.hops # <<>> THEN c.hops[1].peer ELSE c.unv.peer
 
+\* the extra end-to-end layer of a hidden-service circuit (innermost): seeders encrypt FORWARD, downloaders BACKWARD
+HsLayer(c) == IF c.hs # NoKey THEN <<Layer(c.hs, IF c.ctype = "RPS" THEN F ELSE B)>> ELSE <<>>
 (* send_cell from the owner of a circuit: relay_early bookkeeping + layered encryption (crypto.py send_cell) *)
 OwnCell(n, cid, m) ==
   LET c == circ[n][cid]
       early == (m.t = "extend") \/ c.early < MaxEarly
       plain == m.t \in {"create", "created"}
-  IN [cell |-> Cell(n, FirstHopAddr(c), cid, plain, early, IF plain THEN <<>> ELSE Wrap(<<>>, F, HopKeys(c)), m),
+  IN [cell |-> Cell(n, FirstHopAddr(c), cid, plain, early, IF plain THEN <<>> ELSE Wrap(HsLayer(c), F, HopKeys(c)), m),
       circ |-> [c EXCEPT !.early = IF early THEN @ + 1 ELSE @]]
 
 (* remove_circuit / remove_relay / remove_exit_socket: mark + delayed pop *)
@@ -133,7 +137,7 @@ CreateCircuit(o, goal, first, alts) ==
          e   == ctr.eph + 1
          id  == ctr.ident + 1
          c   == [goal |-> goal, hops |-> <<>>, unv |-> [peer |-> first, eph |-> e], closing |-> FALSE,
-                 early |-> 0, act |-> now, born |-> now]
+                 early |-> 0, act |-> now, born |-> now, ctype |-> "DATA", hs |-> NoKey]
          m   == [t |-> "create", cid |-> cid, ident |-> id, pk |-> o, eph |-> e]
      IN /\ circ' = [circ EXCEPT ![o] = Put(@, cid, [c EXCEPT !.early = IF 0 < MaxEarly THEN 1 ELSE 0])]
         /\ retryC' = [retryC EXCEPT ![o] = Put(@, cid, [ident |-> id, tries |-> Tries - 1, alts |-> alts,
@@ -146,12 +150,41 @@ CreateCircuit(o, goal, first, alts) ==
 SendData(o, cid, dest) ==
   /\ ctr.data < MaxData
   /\ Has(circ[o], cid) /\ CState(circ[o][cid]) = "READY"     \* the properties speak about ready circuits
+  /\ circ[o][cid].hs = NoKey                                  \* (end-to-end circuits carry SendE2E traffic)
   /\ LET p == ctr.data + 1
          r == OwnCell(o, cid, [t |-> "data", cid |-> cid, dest |-> dest, origin |-> Null, p |-> p])
      IN /\ circ' = [circ EXCEPT ![o] = Put(@, cid, r.circ)]
         /\ Emit({}, StampIds(<<r.cell>>))
         /\ ctr' = [ctr EXCEPT !.data = p, !.msg = BumpN(o, @, 1)]
         /\ hist' = [hist EXCEPT !.sent = Put(@, p, [o |-> o, cid |-> cid, dest |-> dest])]
+  /\ UNCHANGED <<relay, exit, retryC, createdC, createC, pingC, pend, now, sweepAt, pingAt, budget>>
+
+\* hidden services: the rendezvous point links two circuits that end in it (on_link_e2e); both owners then share an
+\* end-to-end key.  (The create-e2e / link-e2e handshake itself is not modelled: the harness performs the link.)
+LinkE2E(rp, c1, c2, o1, k1, o2, k2) ==
+  /\ Has(exit[rp], c1) /\ Has(exit[rp], c2) /\ c1 # c2 /\ ~exit[rp][c1].enabled /\ ~exit[rp][c2].enabled
+  /\ Has(circ[o1], k1) /\ Has(circ[o2], k2) /\ <<o1, k1>> # <<o2, k2>>
+  /\ LET hk == [e1 |-> ctr.eph + 1, e2 |-> ctr.eph + 1, st |-> "e2e"]
+         r1 == [to |-> c2, next |-> exit[rp][c2].prev, key |-> exit[rp][c1].key, dir |-> F, early |-> 1, act |-> now, rdv |-> TRUE]
+         r2 == [to |-> c1, next |-> exit[rp][c1].prev, key |-> exit[rp][c2].key, dir |-> F, early |-> 1, act |-> now, rdv |-> TRUE]
+     IN /\ relay' = [relay EXCEPT ![rp] = Put(Put(@, c1, r1), c2, r2)]
+        /\ pend' = pend \cup {Pending(rp, "exit", c1), Pending(rp, "exit", c2)}
+        /\ circ' = [circ EXCEPT ![o1] = Put(@, k1, [@[k1] EXCEPT !.ctype = "RPD", !.hs = hk]),
+                                ![o2] = Put(@, k2, [@[k2] EXCEPT !.ctype = "RPS", !.hs = hk])]
+        /\ ctr' = [ctr EXCEPT !.eph = @ + 1]
+        /\ hist' = [hist EXCEPT !.links = @ \cup {<<<<o1, k1>>, <<o2, k2>>>>, <<<<o2, k2>>, <<o1, k1>>>>}]
+  /\ UNCHANGED <<exit, retryC, createdC, createC, pingC, net, now, sweepAt, pingAt, budget>>
+
+\* data for the other end of an e2e circuit (HiddenTunnelCommunity.tunnel_data -> send_data)
+SendE2E(o, cid) ==
+  /\ ctr.data < MaxData
+  /\ Has(circ[o], cid) /\ CState(circ[o][cid]) = "READY" /\ circ[o][cid].hs # NoKey
+  /\ LET p == ctr.data + 1
+         r == OwnCell(o, cid, [t |-> "data", cid |-> cid, dest |-> "peer", origin |-> Null, p |-> p])
+     IN /\ circ' = [circ EXCEPT ![o] = Put(@, cid, r.circ)]
+        /\ Emit({}, StampIds(<<r.cell>>))
+        /\ ctr' = [ctr EXCEPT !.data = p, !.msg = BumpN(o, @, 1)]
+        /\ hist' = [hist EXCEPT !.sent = Put(@, p, [o |-> o, cid |-> cid, dest |-> "peer"])]
   /\ UNCHANGED <<relay, exit, retryC, createdC, createC, pingC, pend, now, sweepAt, pingAt, budget>>
 
 \* remove_circuit called by the owner (optionally with destroy)
@@ -198,7 +231,10 @@ LocalPeel(n, d) ==
   \* incoming_crypto: exit socket first, then own circuit; plaintext cells are not decrypted
   IF d.plain THEN <<TRUE, d.L>>
   ELSE IF Has(exit[n], d.cid) THEN Peel(d.L, F, <<exit[n][d.cid].key>>)
-  ELSE Peel(d.L, B, HopKeys(circ[n][d.cid]))
+  ELSE LET c == circ[n][d.cid]
+           r == Peel(d.L, B, HopKeys(c))
+       IN IF ~r[1] \/ c.hs = NoKey THEN r
+          ELSE Peel(r[2], IF c.ctype = "RPD" THEN F ELSE B, <<c.hs>>)   \* the e2e layer comes off last
 
 \* a cell is handed to the community handler iff ...
 Accepted(n, d) ==
@@ -220,7 +256,8 @@ DropCell(d) ==
             LET r == relay[n][d.cid] IN
               \/ d.plain
               \/ d.early /\ r.early >= MaxEarly
-              \/ r.dir = F /\ ~CanPeel(d.L, r.key, F)
+              \/ (r.dir = F \/ r.rdv) /\ ~CanPeel(d.L, r.key, F)
+              \/ r.rdv /\ ~Has(relay[n], r.to)
   /\ Emit({d}, <<>>)
   \* relay_cell is reached (and this_relay's heart beats) even when the cell is then dropped
   /\ relay' = IF Stage(d.dst, d) = "relay" /\ Has(relay[d.dst], relay[d.dst][d.cid].to)
@@ -236,9 +273,11 @@ RelayCell(d) ==
      /\ LET r == relay[n][d.cid] IN
         /\ ~d.plain
         /\ ~(d.early /\ r.early >= MaxEarly)
-        /\ r.dir = F => CanPeel(d.L, r.key, F)
-        /\ LET L2  == IF r.dir = F THEN Tail(d.L) ELSE <<Layer(r.key, B)>> \o d.L
-               out == Cell(n, r.next, r.to, FALSE, d.early, L2, d.m)
+        /\ (r.dir = F \/ r.rdv) => CanPeel(d.L, r.key, F)
+        /\ r.rdv => Has(relay[n], r.to)
+        /\ LET L2  == IF r.rdv THEN <<Layer(relay[n][r.to].key, B)>> \o Tail(d.L)     \* rendezvous: peel one side, wrap for the other
+                      ELSE IF r.dir = F THEN Tail(d.L) ELSE <<Layer(r.key, B)>> \o d.L
+               out == Cell(n, r.next, r.to, FALSE, IF r.rdv THEN FALSE ELSE d.early, L2, d.m)
                r1  == Put(relay[n], d.cid, [r EXCEPT !.early = @ + 1])
                r2  == IF Has(r1, r.to) THEN Put(r1, r.to, [r1[r.to] EXCEPT !.act = now]) ELSE r1
            IN /\ relay' = [relay EXCEPT ![n] = r2]
@@ -348,8 +387,8 @@ OnCreated(d) ==
               /\ Emit({d}, <<>>) /\ UNCHANGED <<relay, pend, ctr>>
            ELSE
              LET key == exit[n][req.from].key
-                 bw  == [to |-> req.from, next |-> req.peer, key |-> key, dir |-> B, early |-> 1, act |-> now]
-                 fw  == [to |-> req.to, next |-> req.toPeer, key |-> key, dir |-> F, early |-> 1, act |-> now]
+                 bw  == [to |-> req.from, next |-> req.peer, key |-> key, dir |-> B, early |-> 1, act |-> now, rdv |-> FALSE]
+                 fw  == [to |-> req.to, next |-> req.toPeer, key |-> key, dir |-> F, early |-> 1, act |-> now, rdv |-> FALSE]
                  ans == [t |-> "extended", cid |-> req.from, ident |-> req.ext, eph |-> m.eph, auth |-> m.auth,
                          cands |-> m.cands]
              IN /\ relay' = [relay EXCEPT ![n] = Put(Put(@, req.to, bw), req.from, fw)]
@@ -449,7 +488,7 @@ PingAll(n, cids, cs, pc, acc) ==
            id  == ctr.ident + Len(acc) + 1
            c   == cs[cid]
            early == c.early < MaxEarly
-           cell == Cell(n, c.hops[1].peer, cid, FALSE, early, Wrap(<<>>, F, HopKeys(c)),
+           cell == Cell(n, c.hops[1].peer, cid, FALSE, early, Wrap(HsLayer(c), F, HopKeys(c)),
                         [t |-> "ping", cid |-> cid, ident |-> id])
        IN PingAll(n, Tail(cids), Put(cs, cid, [c EXCEPT !.early = IF early THEN @ + 1 ELSE @]),
                   Put(pc, id, now + CacheTO), Append(acc, cell))
@@ -613,6 +652,14 @@ AdvFrame == UNCHANGED <<circ, relay, exit, retryC, createdC, createC, pingC, pen
 AdvPut(d) == net' = net \cup {[id |-> IF UseIds THEN ctr.msg + 1 ELSE 0] @@ d} /\ ctr' = [ctr EXCEPT !.msg = Bump(@, 1)]
 AdvKey == [e1 |-> 0, e2 |-> 0, st |-> Adv]
 
+\* the rendezvous point (which holds the hop keys of both halves but not the end-to-end key) fabricates a data cell
+RPForge(rp, cid) ==
+  /\ AdvStep /\ Has(relay[rp], cid) /\ relay[rp][cid].rdv /\ Has(relay[rp], relay[rp][cid].to)
+  /\ LET other == relay[rp][cid].to IN
+       AdvPut(Cell(rp, relay[rp][cid].next, other, FALSE, FALSE, <<Layer(relay[rp][other].key, B)>>,
+                   [t |-> "data", cid |-> other, dest |-> "peer", origin |-> Null, p |-> 0]))
+  /\ AdvFrame
+
 \* any byte of an encrypted cell altered in flight (the outermost AEAD layer no longer verifies)
 Tamper(d) == /\ AdvStep /\ d \in net /\ d.t = "cell" /\ d.L # <<>>
              /\ net' = (net \ {d}) \cup {[d EXCEPT !.L = <<[Head(d.L) EXCEPT !.ok = FALSE]>> \o Tail(d.L),
@@ -696,6 +743,11 @@ Core ==
         /\ (IF g = 1 THEN "exit" \in Flags[f] ELSE \E i \in DOMAIN FirstHops[o] : FirstHops[o][i] = f)
         /\ CreateCircuit(o, g, f, IF g = 1 THEN <<>> ELSE SelectSeq(FirstHops[o], LAMBDA x : x # f))
   \/ \E o \in Origins, cid \in 1..ctr.cid : SendData(o, cid, "outside")
+  \/ E2E /\ \E o \in Origins, cid \in 1..ctr.cid : SendE2E(o, cid)
+  \/ E2E /\ \E rp \in Node, c1, c2 \in 1..ctr.cid, o1, o2 \in Origins, k1, k2 \in 1..ctr.cid :
+        hist.links = {} /\ o1 # o2 /\ hist.sent = EmptyF /\ CState(IF Has(circ[o1], k1) THEN circ[o1][k1] ELSE [closing |-> TRUE]) = "READY"
+        /\ CState(IF Has(circ[o2], k2) THEN circ[o2][k2] ELSE [closing |-> TRUE]) = "READY"
+        /\ LinkE2E(rp, c1, c2, o1, k1, o2, k2)
   \/ \E o \in Origins, cid \in 1..ctr.cid, ds \in BOOLEAN : RemoveCircuit(o, cid, ds)
   \/ \E d \in net : Deliver(d)
   \/ NodeTeardown /\ \E n \in Node, cid \in 1..ctr.cid : (~\E q \in pend : q.n = n /\ q.cid = cid) /\ (NodeRemoveRelay(n, cid) \/ NodeRemoveExit(n, cid))
@@ -719,6 +771,7 @@ Adversary ==
   \/ "create" \in AdvKinds /\ \E src \in AdvSrcs, dst \in Node, cid \in 0..ctr.cid : AdvCreate(src, dst, cid)
   \/ "plain" \in AdvKinds /\ \E src \in AdvSrcs, dst \in Node, cid \in 1..ctr.cid, mt \in {"data", "ping"} : AdvPlain(src, dst, cid, mt)
   \/ "destroy" \in AdvKinds /\ \E src \in AdvSrcs, dst \in Node, cid \in 1..ctr.cid, s \in Everyone : ForgeDestroy(src, dst, cid, s)
+  \/ "rpforge" \in AdvKinds /\ \E rp \in Node, cid \in 1..ctr.cid : RPForge(rp, cid)
   \/ "mangle" \in AdvKinds /\ \E d \in net, how \in {"ident", "cid", "eph", "ephauth", "auth", "cands"}, c \in 0..ctr.cid :
         (how # "cid" => c = 0) /\ MangleAnswer(d, how, c)
 
@@ -738,10 +791,15 @@ TypeOK == /\ \A n \in Node : DOMAIN circ[n] \subseteq 1..ctr.cid /\ DOMAIN relay
 \* what leaves an exit is exactly what was sent into a circuit, to the destination it was sent to; nothing forged
 ExitIntegrity == \A e \in hist.exitLog : Has(hist.sent, e.p) /\ hist.sent[e.p].dest = e.dest
 \* what comes back is attributed to the right circuit of the right originator
-ReturnIntegrity == \A e \in hist.origLog : Has(hist.sent, e.p) /\ hist.sent[e.p].o = e.n /\ hist.sent[e.p].cid = e.cid
-                                           /\ e.origin = "outside"
+ReturnIntegrity ==
+  \A e \in hist.origLog :
+     /\ Has(hist.sent, e.p)
+     /\ IF hist.sent[e.p].dest = "peer"
+        THEN \* end-to-end data arrives at the linked other end of the circuit it was sent into - and nowhere else
+             <<<<hist.sent[e.p].o, hist.sent[e.p].cid>>, <<e.n, e.cid>>>> \in hist.links
+        ELSE hist.sent[e.p].o = e.n /\ hist.sent[e.p].cid = e.cid /\ e.origin = "outside"
 \* on link i of a k-hop path a forward cell carries k-i layers (>= 1), a backward cell i layers counted from the exit
-HonestData(d) == d.t = "cell" /\ d.m.t = "data" /\ Has(hist.sent, d.m.p) /\ "taint" \notin DOMAIN d.m /\ "altered" \notin DOMAIN d.m
+HonestData(d) == d.t = "cell" /\ d.m.t = "data" /\ Has(hist.sent, d.m.p) /\ d.m.dest # "peer" /\ "taint" \notin DOMAIN d.m /\ "altered" \notin DOMAIN d.m
 LayerDepth ==
   \A d \in net : HonestData(d) /\ (\A l \in DOMAIN d.L : d.L[l].ok) =>
      LET s == hist.sent[d.m.p] IN
@@ -750,6 +808,10 @@ LayerDepth ==
            /\ ~d.plain /\ d.L # <<>>
            /\ (d.m.origin = Null /\ (d.src = s.o \/ i > 0)) => Len(d.L) = k - i
            /\ (d.m.origin # Null /\ i > 0) => Len(d.L) = k - i + 1
+\* end-to-end data is covered on every link by the e2e layer (innermost) plus at least one hop layer
+E2ECell(d) == d.t = "cell" /\ d.m.t = "data" /\ Has(hist.sent, d.m.p) /\ d.m.dest = "peer"
+              /\ "taint" \notin DOMAIN d.m /\ "altered" \notin DOMAIN d.m
+E2ELayers == \A d \in net : E2ECell(d) => (~d.plain /\ Len(d.L) >= 2 /\ d.L[Len(d.L)].k.st = "e2e")
 \* neither the plaintext nor an equal ciphertext of a payload is visible on two different links
 NoRepeatOnLinks ==
   LET H == {d \in wire : HonestData(d)} IN
